@@ -29,6 +29,9 @@
 )))
 (declare-datatypes ((Heap 0)) (((mkheap (hq (Array Int (Array Int Val))) (hm (Array Int (Array Int Val))) (hd (Array Int (Array Int Bool))) (hc (Array Int Int)) (hsp (Array Int Int)) (hsv (Array Int Int))))))
 (define-fun nilslice () Slice (mkslice 0 0 0 0))
+; element access on []any through a function symbol (triggers must not contain arithmetic)
+(declare-fun gat ((Array Int (Array Int Val)) Slice Int) Val)
+(assert (forall ((q (Array Int (Array Int Val))) (s Slice) (i Int)) (! (= (gat q s i) (select (select q (sref s)) (+ (soff s) i))) :pattern ((gat q s i)))))
 (define-fun niliface () Iface (mkiface 0 0))
 (define-fun MaxInt () Int 9223372036854775807)
 (define-fun MinInt () Int (- 9223372036854775808))
